@@ -1,3 +1,5 @@
--- This module serves as the root of the `EqlModel` library.
--- Import modules here that should be built as part of the library.
 import EqlModel.Basic
+import EqlModel.Spec
+import EqlModel.Eval
+import EqlModel.Build
+import EqlModel.PyPrim
